@@ -75,7 +75,7 @@ fn ro_case(h: &History, path: &std::path::Path, calls: &mut u64) -> Result<Vec<(
     let _ = std::fs::remove_file(path);
     let out = exec::run_history(h, &ExecCfg::default(), path);
     if out.aborted {
-        return Err("could not build the state (C01 territory)".into());
+        return Err(crate::report::workload_failure(out.violations.first(), "could not build the state"));
     }
     // model of the committed state
     let mut model = MBucket::default();
@@ -218,7 +218,7 @@ fn failed_commit_case(h: &History, path: &std::path::Path, vio: &crate::vio::Vio
     }
     let out = exec::run_history(&base, &ExecCfg::default(), path);
     if out.aborted {
-        return Err("could not build the state (C01 territory)".into());
+        return Err(crate::report::workload_failure(out.violations.first(), "could not build the state"));
     }
     let image = std::fs::read(path).map_err(|e| e.to_string())?;
     let mut pre = MBucket::default();
@@ -453,6 +453,15 @@ pub fn run(ctx: &Ctx) -> Shard {
         // (d) read-only transactions, on a third of the histories
         if i % 3 == 0 || ctx.replay.is_some() {
             let p3 = scratch.fresh("d");
+            // every other case on a minimum-size file at a page size that does not divide the 8 MiB
+            // allocation step: after the first commit the file is not a whole number of pages long
+            let mut hv = h.clone();
+            if (i / 3) % 2 == 1 && ctx.replay.is_none() {
+                hv.pagesize = [5000u64, 1032, 3000][(i / 6) as usize % 3];
+                hv.num_pages = 4;
+                shard.count("read_only_cases_on_files_that_are_not_a_whole_number_of_pages", 1);
+            }
+            let h = &hv;
             match ro_case(h, &p3, &mut ro_calls) {
                 Ok(v) => {
                     for (sig, detail) in v {
@@ -460,7 +469,7 @@ pub fn run(ctx: &Ctx) -> Shard {
                     }
                     shard.count("read_only_cases", 1);
                 }
-                Err(e) => shard.inconclusive(e),
+                Err(e) => shard.inconclusive_or_workload(ctx, "", &e, &serde_json::json!({"kind": "history", "history": h})),
             }
             let _ = std::fs::remove_file(&p3);
         }
@@ -471,7 +480,7 @@ pub fn run(ctx: &Ctx) -> Shard {
                 let mut v: Vec<(String, String)> = Vec::new();
                 match failed_commit_case(h, &p4, vio, &mut v) {
                     Ok(n) => failed_commits += n,
-                    Err(e) => shard.inconclusive(e),
+                    Err(e) => shard.inconclusive_or_workload(ctx, "", &e, &serde_json::json!({"kind": "history", "history": h})),
                 }
                 for (sig, detail) in v {
                     shard.violation(ctx, &sig, &detail, &serde_json::json!({"kind": "history", "history": h, "part": "failed-commit"}));
